@@ -79,7 +79,13 @@ def error_condition(f, variant):
 
 
 def is_len_of(e, field):
-    return e[0] == "call" and e[1].endswith("::len") and any(n[0] == "field" and n[2] == field for n in _nodes(e))
+    """`<vector field>.len()` taken directly on the field (not on something built from it, e.g. a zipped map)"""
+    if not (e[0] == "call" and e[1].endswith("::len") and e[2]):
+        return False
+    a = e[2][0]
+    if any(n[0] == "call" and n[1] and n[1].rsplit("::", 1)[-1] in ("collect", "zip", "map", "filter", "from_iter", "chain", "take", "skip") for n in _nodes(a)):
+        return False
+    return any(n[0] == "field" and n[2] == field for n in _nodes(a))
 
 
 def run(ctx):
@@ -184,6 +190,21 @@ def run(ctx):
             res.site(k_, True, {"field": fld, "from_fields": sorted(set(names)), "via": sorted(set(x for x in callsn if x))[:6], "verdict": "ok" if ok else "VIOLATION"})
             if not ok:
                 res.find(k_, g.loc(s["sp"]), "the gates produced by DefGateSequence::expand take `%s` from %s via %s; expected the element gate's `%s`%s" % (fld, sorted(set(names)), sorted(set(x for x in callsn if x))[:6], need[0], " through %s" % need[1] if need[1] else ""), "a sequence element `RX(%t) a` is expanded without substituting %t / a, or loses its name or modifiers")
+    # R3c the substitution of formal parameters is applied to every parameter expression of every element gate: the call
+    #     to substitute_variables is unconditional in its closure
+    key = "K7|substitution-unconditional"
+    sub_fns = []
+    allf2 = [dge] + db.closures_of(dge)
+    for g in list(allf2):
+        allf2 += db.closures_of(g)
+    for g in {x.path: x for x in allf2}.values():
+        for bb, t, c in g.calls():
+            if c and c.get("name") == "substitute_variables":
+                sub_fns.append((g, bb))
+    ok = len(sub_fns) == 1 and not sub_fns[0][0].control_deps(sub_fns[0][1], transitive=False)
+    res.site(key, True, {"substitution_sites": len(sub_fns), "verdict": "ok" if ok else "VIOLATION"})
+    if not ok:
+        res.find(key, dge.loc(), "DefGateSequence::expand substitutes the formal parameters only under an additional condition (or not at exactly one place)", "`DEFGATE S(%t) a AS SEQUENCE: RX(cos(%t)) a` then `S(1) 0` yields RX(cos(%t)) 0")
     # R3b element order and pairing: the result is self.gates mapped in order; formals are zipped with actuals in order
     key = "K10|expansion-order"
     BAD = {"rev", "skip", "take", "step_by", "filter", "skip_while", "take_while", "chain", "cycle", "reverse", "swap", "rotate_left", "rotate_right",
